@@ -44,6 +44,9 @@ def main() -> int:
     ctx.res.count("advisory/library_log_records_formatted", logcfg.RECORDS["n"])
     ctx.res.count(f"interpreter/shards-with-optimize={sys.flags.optimize}")
     import warnings as _w
+    import os as _os
+
+    ctx.res.count("interpreter/shards-with-protobuf-backend=" + _os.environ.get("PROTOCOL_BUFFERS_PYTHON_IMPLEMENTATION", "default(upb)"))
 
     ctx.res.count("interpreter/shards-with-DeprecationWarning-as-error=" + str(any(f[0] == "error" and f[2] is DeprecationWarning for f in _w.filters)))
     rot = sys.modules.get("vf.sim.rotation")
